@@ -1,9 +1,11 @@
 """C04 - Critical path is the longest latency-weighted dependency chain.
 
-The pinned code does not satisfy the property (known finding `cp-underreport`, DESIGN 6/D7): the check
-ties the Lean model of the code *as it is* (LCD.cpCandidates) to the implementation, proves the negative
-result on a witness (Props/C04.lean cp_underreports) and evaluates Spec.longestChain on every kernel:
-over-reporting, broken chains and any deviation from the model are reported; under-reporting is the finding.
+proof:   Props/C04.lean -- cpTotal_eq_longestChain (model of the repaired get_critical_path = declarative DP),
+         longestChain_is_max, cp_is_longest, cp_ge_every_instr, cp_ge_every_chain, cp_lines_form_chain, cp_lines_sum;
+         cp_underreports / cp_never_overreports are kept as the witness for the unrepaired variant.
+tie:     total and marked lines of the real get_critical_path vs LCD.cpTotal / LCD.cpMarks on the implementation's operands.
+search:  Spec.longestChain over the implementation's own graph in both directions; marked lines form a chain; per-line
+         CP latencies are the chain's stages.
 """
 from harness import core, dgcheck
 from harness.props.c03 import replay_common
@@ -38,10 +40,10 @@ def run(ctx):
     ctx.cov["distinct_nontrivial"] = len(distinct)
     ctx.cov["traces_validated_against_impl"] = ctx.counts.get("cp_compared", 0)
     ctx.cov["rule"] = "distinct (isa, model, kernel) with at least one dependency edge"
-    ctx.log("%d kernels, %d under-reports (known finding)" % (ctx.counts.get("kernels", 0), ctx.counts.get("cp_underreports", 0)))
+    ctx.log("%d kernels, %d under-reports" % (ctx.counts.get("kernels", 0), ctx.counts.get("cp_underreports", 0)))
     ctx.cov["programs"] = ctx.counts.get("kernels", 0)
     ctx.cov["disagreements_checked"] = ctx.counts.get("cp_compared", 0)
-    return ctx.finish(level="translation_validation", trusted=dgcheck.TRUSTED)
+    return ctx.finish(trusted=dgcheck.TRUSTED)
 
 
 def replay(ctx, path):
